@@ -171,7 +171,8 @@ def pure_space(tier):
     thorough = tier == "thorough"
     out = []
     for kind in ("U", "S"):
-        cfgs = [dict(cap=1, tti=2), dict(cap=2, tti=2), dict(cap=2), dict(cap=3, w=1, alpha="weights"), dict(cap=2, ttl=2, tti=3), dict(cap="none", tti=2)]
+        cfgs = [dict(cap=1, tti=2), dict(cap=2, tti=2), dict(cap=2), dict(cap=3, w=1, alpha="weights"), dict(cap=2, ttl=2, tti=3), dict(cap="none", tti=2),
+                dict(cap=3, w=1, alpha="weights", ttl=2, keys=2)]
         for c in cfgs:
             kw = dict(dict(kind=kind, alpha="basic", pure=1, keys=3, A=2), **c)
             if kind == "U":
@@ -363,9 +364,14 @@ def staged_expiry(prop, tier):
         # (a pass applies its reads before its writes: the hit of key 0 must come after
         # the pass that admits keys 1 and 2, or it would not make key 0 the most recent)
         pre = "ins:0:1" + sy + "+adv:1+ins:1:1+ins:2:1" + sy + "+get:0" + sy + "+adv:1"
+        # ... and the same one step earlier: the oldest resident expires only after the
+        # search has had the chance to create an excess (a growing update) first
+        pre2 = "ins:0:1" + sy + "+adv:1+ins:1:1+ins:2:1" + sy + "+get:0" + sy
         for ex in (dict(ttl=2), dict(ttl=2, tti=3)):
-            kw = dict(dict(kind=kind, cap=3, w=1, alpha="weights", keys=3, D=4 if thorough else 3, Q=2, A=1, pre=pre, beyond=1, tick=1000), **ex)
-            out.append({"id": name("staged-" + prop.lower(), {k: v for k, v in kw.items() if k != "pre"}), "argv": ["seqx", spec(**kw), "@JOURNAL@"]})
+            for tag, p_ in (("a", pre), ("b", pre2)):
+                # (A counts the advances of the prefix too: one more than it contains)
+                kw = dict(dict(kind=kind, cap=3, w=1, alpha="weights", keys=3, D=4 if thorough else 3, Q=2, A=p_.count("adv") + 1, pre=p_, beyond=1, tick=1000), **ex)
+                out.append({"id": name("staged" + tag + "-" + prop.lower(), {k: v for k, v in kw.items() if k != "pre"}), "argv": ["seqx", spec(**kw), "@JOURNAL@"]})
     return out
 
 
@@ -490,9 +496,13 @@ def _jobs_for(prop, tier):
     if prop == "C14":
         return sketch_space(tier)
     if prop == "C15":
-        return pure_space(tier)
+        # ... plus the staged starts (a full weighted cache with ttl, the most recently used
+        # resident about to expire, room for an excess): the order purge-then-evict inside
+        # contains_key must be the one every other call uses
+        st = [dict(j, argv=[j["argv"][0], j["argv"][1].replace("pure=0", "pure=1"), j["argv"][2]]) for j in staged_expiry("C15", tier)]
+        return pure_space(tier) + st
     if prop == "C16":
-        return c01_space(tier, caps=["none", 2], with_collide=False, prefix="c16", a=3 if thorough else 2, dU=8 if thorough else 7, dS=7 if thorough else 6)
+        return c01_space(tier, caps=["none", 2], with_collide=True, prefix="c16", a=3 if thorough else 2, dU=8 if thorough else 7, dS=7 if thorough else 6)
     if prop == "C17":
         return [{"id": "cfgx", "argv": ["cfgx"]}]
     return []
